@@ -42,6 +42,9 @@ impl TransitionsToPartitionGroups {
     }
 }
 
+#[cfg(feature = "verif_hooks")]
+pub(crate) const VERIF_STATE_GROUP_ID_BYTES: usize = std::mem::size_of::<StateGroupIDBase>();
+
 // The minimizer is a struct that is used to minimize the number of states in a DFA.
 #[derive(Debug)]
 pub(crate) struct Minimizer;
@@ -51,6 +54,8 @@ impl Minimizer {
     /// The minimization is done using the subset construction algorithm.
     /// The method takes a DFA and returns a minimized DFA.
     pub(crate) fn minimize(dfa: CompiledDfa) -> CompiledDfa {
+        #[cfg(feature = "verif_hooks")]
+        crate::verif::minimizer_input(&dfa);
         trace!("Minimize DFA ----------------------------");
         trace!("Initial DFA:\n{}", dfa);
         // The transitions of the DFA in a convenient data structure.
@@ -262,6 +267,8 @@ impl Minimizer {
 
         trace!("Minimized DFA:\n{}", dfa);
 
+        #[cfg(feature = "verif_hooks")]
+        crate::verif::minimizer_output(&dfa);
         dfa
     }
 
